@@ -45,7 +45,8 @@ MANIFEST = dict(
          "continues to the linear bound.  TLC validates the trace against spec/TraceSync.tla: C09_RevisionsFirst / C09_FailStops "
          "(order of ControllerRevision and child writes within each sync), C09_OneClaim (after every completed sync), C09_NotAhead "
          "(an invariant of EVERY reconstructed store state, i.e. at every cut point: no child's content is newer than the newest "
-         "revision claiming it), and C08_Done as SameEnd (the crashed run reaches the final state of the uninterrupted run).",
+         "revision claiming it), and C08_Done as SameEnd (the crashed run reaches the final state of the uninterrupted run)."
+         " Faults are also aimed at exactly the k-th ControllerRevision create / update / delete (revfault); C09_RecordedFirst: a child is written with revision v's content only once the store records that it belongs to v.",
     ref="DESIGN.md §8 C09",
     tech="TLA+ model + TLC-enumerated rollout plans x crash/fault positions replayed on real code + TLC trace validation",
     cat="model_checking")
